@@ -12,6 +12,7 @@ import (
 	"testing"
 	"time"
 
+	"github.com/brewlin/net-protocol/pkg/buffer"
 	"github.com/brewlin/net-protocol/pkg/waiter"
 	tcpip "github.com/brewlin/net-protocol/protocol"
 	"github.com/brewlin/net-protocol/protocol/network/ipv4"
@@ -733,10 +734,78 @@ func racing(k int) {
 	run.Count("racing_socket_lifetimes", int64(len(lives)))
 }
 
+// registryRace: the registration table itself. Goroutines register the same few endpoint
+// ids at the same moment (what two copies of one SYN, or two connects that picked the same
+// 4-tuple, do inside the stack), hold the registration briefly and give it up. An id has
+// one owner: of the registrations that overlap in time exactly one may succeed, so the
+// number of current holders of an id never exceeds one, and once everybody has let go the
+// id can be registered again.
+type regEP struct{ owner int }
+
+func (*regEP) HandlePacket(*stack.Route, stack.TransportEndpointID, buffer.VectorisedView) {}
+func (*regEP) HandleControlPacket(stack.TransportEndpointID, stack.ControlType, uint32, buffer.VectorisedView) {
+}
+
+func registryRace(k int) {
+	w := newWorld()
+	ids := []stack.TransportEndpointID{
+		{LocalPort: 100, LocalAddress: l11, RemotePort: 5000, RemoteAddress: r19},
+		{LocalPort: 100, LocalAddress: l11},
+	}
+	nets := []tcpip.NetworkProtocolNumber{ipv4.ProtocolNumber}
+	var holders [2]int32
+	var both int32
+	var succ, fail int64
+	const G = 8
+	var wg sync.WaitGroup
+	start := make(chan struct{})
+	for g := 0; g < G; g++ {
+		g := g
+		wg.Add(1)
+		go func() {
+			defer wg.Done()
+			ep := &regEP{owner: g}
+			<-start
+			for i := 0; i < 400 && atomic.LoadInt32(&both) == 0; i++ {
+				x := (i + g) % 2
+				nic := tcpip.NICID(0)
+				if e := w.s.RegisterTransportEndpoint(nic, nets, udp.ProtocolNumber, ids[x], ep); e != nil {
+					atomic.AddInt64(&fail, 1)
+					continue
+				}
+				atomic.AddInt64(&succ, 1)
+				if n := atomic.AddInt32(&holders[x], 1); n > 1 {
+					atomic.StoreInt32(&both, int32(x)+1)
+				}
+				runtime.Gosched()
+				atomic.AddInt32(&holders[x], -1)
+				w.s.UnregisterTransportEndpoint(nic, nets, udp.ProtocolNumber, ids[x])
+			}
+		}()
+	}
+	close(start)
+	wg.Wait()
+	run.Count("registry_race_registrations_succeeded", succ)
+	run.Count("registry_race_registrations_refused", fail)
+	if b := atomic.LoadInt32(&both); b != 0 {
+		run.Violation("C09/racing/one-id-registered-twice", fmt.Sprintf("two registrations of the endpoint id %+v that overlapped in time both succeeded: the table holds one of the two endpoints, the other believes it is registered", ids[b-1]), k)
+		return
+	}
+	for x := range ids {
+		if e := w.s.RegisterTransportEndpoint(0, nets, udp.ProtocolNumber, ids[x], &regEP{}); e != nil {
+			run.Violation("C09/racing/id-not-released", fmt.Sprintf("every holder has unregistered, yet registering %+v again fails with %v", ids[x], e), k)
+		}
+	}
+	run.Case(fw.Hash("registry-race", k%16), succ > 0 && fail > 0)
+}
+
 func child(t *testing.T) {
 	if os.Getenv("VERIF_PHASE") == "racing" {
 		for k := 0; k < fw.N(60, 3000) && run.Violations() < 3; k++ {
 			racing(k)
+		}
+		for k := 0; k < fw.N(150, 6000) && run.Violations() < 3; k++ {
+			registryRace(k)
 		}
 		os.Exit(run.Finish("", nil))
 	}
